@@ -75,6 +75,8 @@ func main() {
 		os.Exit(cmdReplay(os.Args[2:]))
 	case "intenc":
 		os.Exit(cmdIntenc(os.Args[2:]))
+	case "intexpr":
+		os.Exit(cmdIntexpr(os.Args[2:]))
 	case "c13gen":
 		os.Exit(cmdC13Gen(os.Args[2:]))
 	default:
